@@ -220,6 +220,7 @@ PROPS = {
             {"name": "c05.simultaneous-failures", "pkg": ROUTING, "test": "TestVerifC05SimultaneousFailures", "shards_t": 4, "shards_q": 2, "crash_is_violation": True},
             {"name": "c05.directed", "pkg": ROUTING, "test": "TestVerifC05Directed", "shards_t": 16, "shards_q": 8, "crash_is_violation": True},
             {"name": "c05.reports-in-transit", "pkg": ROUTING, "test": "TestVerifC05ReportsInTransit", "shards_t": 8, "shards_q": 4, "crash_is_violation": True},
+            {"name": "c05.concurrent-retry", "pkg": ROUTING, "test": "TestVerifC05ConcurrentRetry", "shards_t": 16, "shards_q": 8, "crash_is_violation": True},
             {"name": "c05.two-nodes", "pkg": ROUTING, "test": "TestVerifC05TwoNodes", "shards_t": 16, "shards_q": 8, "crash_is_violation": True},
         ],
     },
